@@ -26,7 +26,7 @@ FNS = {
     6: ("fa", "v:1"),     # version containing ':'
 }
 ARGS = [1, 2, 3]
-OVERRIDES = {1: "ov/k1", 2: "ov/k2", 3: "ovk3"}
+OVERRIDES = {1: "ov/k1", 2: "ov/k2", 3: "ovk3", 4: "ov/run#7"}          # (4: '#' is the separator of stored versioned keys)
 MKEYS = {1: "log", 2: "log.extra"}
 
 
